@@ -339,7 +339,11 @@ Definition reply_reaches_caller (registry : bool) (hdrs : list hpair) (reply : b
 Definition rpc_call (fuel : nat) (e : env) (pm : list (bytes * method)) (h : handler) (registry : bool)
            (m : method) (hdrs : list hpair) (args : list (option val))
   : res (coutcome * hlog * option bytes) :=
-  do req <- client_prepare e m hdrs args;
+  match client_prepare e m hdrs args with
+  | Err err => Ok (CErr err, [], None)     (* the generated Write refuses the arguments: nothing is sent *)
+  | Panic p => Panic p
+  | OutOfFuel => OutOfFuel
+  | Ok req =>
   do payload <- unframe (frame_of req);
   do (out, log) <- server_process fuel e pm h payload;
   if m_oneway m then Ok (CRet None, log, out)
@@ -350,7 +354,8 @@ Definition rpc_call (fuel : nat) (e : env) (pm : list (bytes * method)) (h : han
       if reply_reaches_caller registry hdrs reply
       then Ok (process_reply fuel e m reply, log, out)
       else Ok (CTimeout, log, out)
-    end.
+    end
+  end.
 
 (** the specification: what the caller of a two-way method should see for each handler outcome *)
 Definition map_outcome (e : env) (m : method) (o : houtcome) : coutcome :=
